@@ -16,6 +16,7 @@ import (
 	"sort"
 	"strconv"
 	"strings"
+	"sync"
 	"testing"
 	"testing/synctest"
 	"time"
@@ -183,6 +184,7 @@ type rig struct {
 	rec   *vh.Recorder
 	ch    *vh.VChan
 	srv   *jrpc2.Server
+	mu    sync.Mutex // the members of a batch run their handlers concurrently
 	calls []hcall
 	nout  int
 }
@@ -191,7 +193,9 @@ func newRig(push bool) *rig {
 	r := &rig{rec: &vh.Recorder{}}
 	r.ch = vh.NewVChan("w", r.rec, false)
 	h := func(ctx context.Context, req *jrpc2.Request) (any, error) {
+		r.mu.Lock()
 		r.calls = append(r.calls, hcall{req.Method(), req.ID(), req.ParamString()})
+		r.mu.Unlock()
 		return "ok", nil
 	}
 	r.srv = jrpc2.NewServer(handler.Map{"h": h}, &jrpc2.ServerOptions{AllowPush: push, Concurrency: 4})
@@ -201,7 +205,9 @@ func newRig(push bool) *rig {
 
 // feed sends one record and returns the handler calls and output records it provoked.
 func (r *rig) feed(rec []byte) ([]hcall, [][]byte) {
+	r.mu.Lock()
 	c0 := len(r.calls)
+	r.mu.Unlock()
 	lastFed = string(rec)
 	r.ch.Push(rec, nil)
 	synctest.Wait()
@@ -209,6 +215,8 @@ func (r *rig) feed(rec []byte) ([]hcall, [][]byte) {
 	outs := append([][]byte(nil), r.ch.Out[r.nout:]...)
 	r.nout = len(r.ch.Out)
 	r.ch.Unlock()
+	r.mu.Lock()
+	defer r.mu.Unlock()
 	return append([]hcall(nil), r.calls[c0:]...), outs
 }
 
@@ -484,6 +492,7 @@ type result struct {
 	Cells       int            `json:"cells"`
 	Batches     int            `json:"batches"`
 	Aborted     bool           `json:"aborted"`
+	Patterns    int            `json:"patterns"`
 	Random      int            `json:"random"`
 	Classes     map[string]int `json:"classes"`
 	Violations  []violation    `json:"violations"`
@@ -670,12 +679,21 @@ func TestWire(t *testing.T) {
 						gen(append(cur, g), n)
 					}
 				}
-				for n := 2; n <= 4; n++ {
-					if n == 4 && len(gkeys) > 5 {
+				maxLen, _ := strconv.Atoi(os.Getenv("VERIF_PATLEN"))
+				if maxLen == 0 {
+					maxLen = 4
+				}
+				for n, total := 2, 0; n <= maxLen; n++ {
+					k := 1
+					for i := 0; i < n; i++ {
+						k *= len(gkeys)
+					}
+					if total += k; total > 40000 {
 						break
 					}
 					gen(nil, n)
 				}
+				res.Patterns += len(pats)
 				for pi, pat := range pats {
 					if pi%nshard != shard {
 						continue
